@@ -207,6 +207,38 @@ func init() {
 				compared += len(on)
 			}
 		}
+		// the same comparison when the complete run contains fatal results (sections the configurable lints cannot read):
+		// leaving the fatal lints out must not raise a flag the complete run does not raise
+		{
+			bad, err := lint.NewConfigFromString("[e_rsa_fermat_factorization]\nRounds = \"plenty\"\n[e_subj_contains_html_entities]\nSkip = 7\n[e_crl_next_update_invalid]\nSubscriberCRL = \"no\"\n")
+			if err == nil {
+				g.SetConfiguration(bad)
+				fspecs := []FilterSpec{{ExcludeNames: []string{"e_rsa_fermat_factorization", "e_subj_contains_html_entities", "e_crl_next_update_invalid"}}, {IncludeSources: []string{"RFC5280"}},
+					{ExcludeSources: []string{"Community"}}, {IncludeNames: []string{"e_rsa_fermat_factorization"}}, {Regex: "^[wn]_"}}
+				for _, f := range fspecs {
+					fr, err := g.Filter(f.opts())
+					if err != nil {
+						continue
+					}
+					cn, _, ln := namesOfKind(fr)
+					for i, cc := range certs {
+						if i%4 != 0 && tier() != "thorough" {
+							continue
+						}
+						fa, fb := zlint.LintCertificate(fresh(cc)), zlint.LintCertificate(fresh(cc))
+						filt := zlint.LintCertificateEx(fresh(cc), fr)
+						compareFiltered(out, "cert "+cc.File+" (complete run contains fatal results)", f, fa, fb, filt, cn)
+						runs++
+					}
+					for _, cc := range corpus.CRLs {
+						fa, fb := zlint.LintRevocationList(cc.CRL), zlint.LintRevocationList(cc.CRL)
+						compareFiltered(out, "crl "+cc.File+" (complete run contains fatal results)", f, fa, fb, zlint.LintRevocationListEx(cc.CRL, fr), ln)
+						runs++
+					}
+				}
+				g.SetConfiguration(lint.NewEmptyConfig())
+			}
+		}
 		out.Stats["filtered_runs"] = runs
 		out.Stats["lint_results_compared"] = compared
 		out.Stats["filters"] = len(specs)
